@@ -106,7 +106,7 @@ class Report:
             rc = 1
         if len(distinct) > shown:
             print("... %d more distinct violations (replay files written)" % (len(distinct) - shown))
-        if self.replay_only is None:
+        if self.replay_only is None and not os.environ.get("VERIF_KEEP_EVIDENCE"):
             ev = {
                 "property_id": self.prop,
                 "tier": self.tier,
